@@ -436,6 +436,10 @@ func (l Gpos2_1) encode() []byte {
 
 	for _, adj := range adjust {
 		pairValueCount := len(adj)
+		if pairValueCount > 0xFFFF {
+			// all 65536 glyphs as second glyph of one first glyph
+			panic("sfnt/opentype/gtab: too many pairs for one first glyph, the count does not fit into 16 bits")
+		}
 		buf = append(buf, byte(pairValueCount>>8), byte(pairValueCount))
 
 		keys := maps.Keys(adj)
